@@ -6,6 +6,7 @@ import PhyloModel.Matrix.Phylip
 import PhyloModel.Dist.Fold
 import PhyloModel.Matrix.Upgma
 import PhyloModel.Misc.Generators
+import PhyloModel.Misc.Layout
 /-! Line-protocol driver: runs the executable definitions of the model, one request per line
     (tab-separated fields), one answer line per request.  See /verif/PROTOCOL.md.
     Unknown or ill-formed requests answer `bad-op`; nothing is ever defaulted. -/
@@ -319,6 +320,10 @@ def dispatch (st : DState) (fs : List String) : DState × String :=
   | ["ar.swap"] => ({ st with ar := st.ar2, ar2 := st.ar }, "ok")
   | "sp" :: q => match spQuery st.ar st.ar2 q with | some r => (st, r) | none => bad
   | ["nop"] => (st, "ok")
+  | ["lay"] =>
+    (st, encQR (fun (segs : List LAY.Seg) => " ".intercalate (segs.map (fun s =>
+        s!"{s.parent},{s.id},{encRat s.angle},{encRat s.start},{encRat s.width},{encOptInt s.len},{encOptStr s.name}")))
+      (AR.absRoot st.ar >>= LAY.radial))
   | "gen" :: q =>
     let encSt (s : GEN.St) (names : List (Nat × Nat)) : String :=
       "ok " ++ " ".intercalate ((List.range s.size).map (fun i => s!"{i}:" ++ ",".intercalate ((s.kids i).map toString))) ++
